@@ -1,20 +1,3 @@
-//! vh-bootstrap: checks over ant-bootstrap's on-disk peer cache (property C18). No hooks needed.
-mod addrs;
-mod c18;
-mod corrupt;
-mod history;
-mod oracle;
-mod stress;
-
 fn main() {
-    // `PeersArgs::get_bootstrap_addr` reads this variable before it looks at the cache file
-    std::env::remove_var("ANT_PEERS");
-    let cfg = vh_core::RunCfg::from_args();
-    match cfg.prop.as_str() {
-        "C18" => c18::run(cfg),
-        other => {
-            eprintln!("vh-bootstrap: unknown property {other}");
-            std::process::exit(2);
-        }
-    }
+    vh_bootstrap::main_entry()
 }
